@@ -176,6 +176,10 @@ SGE = "geneticengine/representations/grammatical_evolution/structured_ge.py"
 DSGE = "geneticengine/representations/grammatical_evolution/dynamic_structured_ge.py"
 STK = "geneticengine/representations/stackgggp/__init__.py"
 INI = "geneticengine/representations/tree/initializations.py"
+M("C18", "weighted-choice-rewrites-weights", SRC, "        acc_weights: list[int] = [int(x * 100000) for x in accumulate(weights)]",
+  "        for i in range(1, len(weights)):\n            weights[i] += weights[i - 1]\n        acc_weights: list[int] = [int(x * 100000) for x in weights]", "C18.R3")
+M("C18", "twin-weighted-choice-local-running-totals", SRC, "        acc_weights: list[int] = [int(x * 100000) for x in accumulate(weights)]",
+  "        totals = list(weights)\n        for i in range(1, len(totals)):\n            totals[i] += totals[i - 1]\n        acc_weights: list[int] = [int(x * 100000) for x in totals]", "", expect="silent")
 M("C18", "ge-randint-width-off", GE, "return v % (max - min + 1) + min", "return v % (max - min + 2) + min", "C18.R1")
 M("C18", "sge-randint-no-offset", SGE, "return v % (max - min + 1) + min", "return v % (max - min + 1)", "C18.R1")
 M("C18", "stack-randint-exclusive", STK, "return v % (max - min + 1) + min", "return v % (max - min) + min", "C18.R1")
@@ -239,6 +243,13 @@ M("C10", "shuffle-grammar-list", STK, "                concrete = r.choice(g.alt
 M("C10", "weights-rewritten-in-decider", INI, "        weights = [w(alt) * self.grammar.get_weights()[alt] for alt in alternatives]",
   "        self.grammar.update_weights(0.0, self.grammar.get_weights())\n        weights = [w(alt) * self.grammar.get_weights()[alt] for alt in alternatives]", "C10.R2")
 M("C10", "alternatives-defaultdict", GRM, "        self.alternatives: dict[type, list[type]] = {}", "        self.alternatives: dict[type, list[type]] = defaultdict(list)", "C10.R3")
+MHV = "geneticengine/grammar/metahandlers/vars.py"
+M("C10", "varrange-pops-option", MHV, "        return random.choice(self.options)\n\n    def __repr__", "        return random.pop_random(self.options)\n\n    def __repr__", "C10.R4")
+M("C10", "intlist-shuffles-own-elements", MHI, "        return random.choice(self.elements)\n\n    def validate(self, v) -> bool:\n        return v in self.elements\n\n    def __class_getitem__(cls, args):\n        return IntList(*args)",
+  "        return random.shuffle(self.elements)[0]\n\n    def validate(self, v) -> bool:\n        return v in self.elements\n\n    def __class_getitem__(cls, args):\n        return IntList(*args)", "C10.R4")
+M("C10", "weighted-choice-accumulates-in-place", SRC, "        acc_weights: list[int] = [int(x * 100000) for x in accumulate(weights)]",
+  "        for i in range(1, len(weights)):\n            weights[i] += weights[i - 1]\n        acc_weights: list[int] = [int(x * 100000) for x in weights]", "C10.R4")
+M("C10", "twin-varrange-choice-of-copy", MHV, "        return random.choice(self.options)\n\n    def __repr__", "        return random.pop_random(list(self.options))\n\n    def __repr__", "", expect="silent")
 M("C10", "twin-copy-by-slice", INI, "compatible_productions = list(global_context.grammar.alternatives[starting_symbol])", "compatible_productions = global_context.grammar.alternatives[starting_symbol][:]", "", expect="silent")
 M("C10", "twin-copy-comprehension", INI, "compatible_productions = list(global_context.grammar.alternatives[starting_symbol])", "compatible_productions = [p for p in global_context.grammar.alternatives[starting_symbol]]", "", expect="silent")
 
